@@ -304,6 +304,7 @@ type Case struct {
 }
 
 type hit struct {
+	Expect string `json:"expect,omitempty"` // corpus only: "reject" = a repaired finding, the input must be rejected
 	What  string `json:"what"`
 	Type  string `json:"type"`
 	Bytes string `json:"bytes"`
@@ -338,33 +339,16 @@ func classify(e *entry, b, re []byte) string {
 	if err2 != nil {
 		return "encoder-output-not-canonical-rlp"
 	}
-	if e.name == "ValidatorIndex" && a.IsList && c.IsList {
-		// same set of addresses, written sorted without duplicates
-		set := map[string]bool{}
-		for _, x := range a.L {
-			set[string(x.B)] = true
-		}
-		var ks []string
-		for k := range set {
-			ks = append(ks, k)
-		}
-		sort.Strings(ks)
-		ok := len(ks) == len(c.L)
-		for i := 0; ok && i < len(ks); i++ {
-			ok = ks[i] == string(c.L[i].B)
-		}
-		if ok {
-			return "validatorindex-unsorted-or-duplicate"
-		}
-	}
 	if e.name == "EvidenceDoubleSign" {
 		o1 := goDecode(e, b, false)
 		o2 := goDecode(e, re, false)
 		if o1.Accepted && o2.Accepted {
 			m1, _ := projObj(o1.obj)
 			m2, _ := projObj(o2.obj)
+			// since 201ba78 wrong hash lengths and duplicates are rejected and the encoder
+			// sorts: an accepted input with the same value differs only in the order
 			if mvEq(m1, m2) {
-				return "evidencedoublesign-map"
+				return "evidencedoublesign-unsorted-order"
 			}
 		}
 	}
@@ -395,11 +379,6 @@ func classify(e *entry, b, re []byte) string {
 	}
 	if !x.IsList && len(x.B) == 0 && y.IsList && len(y.L) == 0 {
 		return "nil-pointer-either-empty-kind"
-	}
-	// Validator.Expelled: any byte other than 1 reads as false
-	if strings.HasPrefix(e.name, "Validator") && !x.IsList && len(x.B) == 1 && x.B[0] >= 2 && !y.IsList && len(y.B) == 0 &&
-		len(path) >= 1 && path[len(path)-1] == 1 {
-		return "validator-expelled-byte"
 	}
 	return ""
 }
@@ -468,7 +447,7 @@ func (g *genState) valueCase(e *entry) {
 		mv2, _ := projObj(o.obj)
 		rt = mvEq(mv, mv2)
 		b3, _, _ := goEncode(o.obj)
-		if rt && !bytes.Equal(b3, b) && e.name != "EvidenceDoubleSign" {
+		if rt && !bytes.Equal(b3, b) {
 			g.hit(hit{What: "roundtrip-bytes-differ:" + e.name, Type: e.name, Bytes: hex.EncodeToString(b), Re: hex.EncodeToString(b3)})
 		}
 	}
@@ -680,6 +659,9 @@ func gen(seed uint64, n int, outDir, corpusDir string) {
 			g.itemCase(b)
 		} else if e := entryByName(h.Type); e != nil {
 			g.bytesCase(e, b, "corpus")
+			if h.Expect == "reject" && goDecode(e, b, false).Accepted {
+				g.hit(hit{What: "regression:repaired-finding-accepted-again:" + e.name, Type: e.name, Bytes: h.Bytes, Note: h.Note})
+			}
 		}
 		g.res.Count("corpus")
 	}
@@ -783,6 +765,9 @@ func replay(file string) {
 			os.Exit(2)
 		}
 		g.bytesCase(e, b, "replay")
+		if (h.Expect == "reject" || strings.HasPrefix(h.What, "regression:")) && goDecode(e, b, false).Accepted {
+			g.hit(hit{What: "regression:repaired-finding-accepted-again:" + e.name, Type: e.name, Bytes: h.Bytes})
+		}
 		for _, c := range g.cases {
 			fmt.Printf("type=%s accepted=%v reencoded=%s\n", c.Type, c.Acc, c.Re)
 		}
